@@ -333,6 +333,18 @@ func opLane(w *World, op *Op) {
 			msgs = append([]sdk.Msg{&first}, msgs...)
 		}
 		bz = signedCosmos(msgs...)
+	case "exec_eth_of_another_sender": // somebody else's signed Ethereum tx (valid nonce, possibly unprotected), relayed with From = the grantee
+		on, _, _ := w.committedSeq(other.Acc())
+		ve := &EthTx{Type: 0, Nonce: on, To: &wl.Addr, Value: big.NewInt(12345), Gas: 60000, GasPrice: price, FeeCap: price, TipCap: big.NewInt(0), Unprotected: op.Typ%2 == 0}
+		victimTx := SignEth(other, ve)
+		relayed := EthMsg(victimTx, wl.Addr)
+		first := authz.NewMsgExec(wl.Acc(), []sdk.Msg{send})
+		second := authz.NewMsgExec(wl.Acc(), []sdk.Msg{relayed})
+		msgs := []sdk.Msg{&first, &second}
+		if op.Ref%3 == 0 {
+			msgs = []sdk.Msg{&second}
+		}
+		bz = signedCosmos(msgs...)
 	case "exec_exec_sibling_eth": // exec( exec(send), eth )
 		inner := authz.NewMsgExec(wl.Acc(), []sdk.Msg{send})
 		bz = signedCosmos(execNest(wl.Acc(), []sdk.Msg{&inner, ethMsg}, 1)...)
@@ -391,7 +403,7 @@ func opLane(w *World, op *Op) {
 
 var laneRecipes = []string{"valid", "memo", "timeout", "fee_payer", "fee_granter", "no_ext_opt", "extra_ext_opt", "foreign_ext_opt_only", "non_critical_ext_opt", "non_critical_ext_opt_only", "fee_lower", "fee_higher",
 	"fee_other_denom", "gas_higher", "gas_lower", "two_eth", "eth_beside_send", "send_beside_eth_signed", "with_signature", "raw_signature_no_signer_info", "exec_eth", "exec_eth", "exec_exec_sibling_eth",
-	"grant_eth", "exec_vesting", "exec_send"}
+	"grant_eth", "exec_vesting", "exec_send", "exec_eth_of_another_sender"}
 
 func genC07(rng *rand.Rand, seed uint64, tier string) *Script {
 	g, _ := mixedGenesis(rng)
